@@ -191,18 +191,18 @@ func panicSite(errs []api.Message) string {
 			continue
 		}
 		for _, n := range m.Notes {
+			// helpers.PrettyPrintedStack: one line per frame, "pkg.(*T).fn (file.go:123)"
 			for _, line := range strings.Split(n.Text, "\n") {
 				line = strings.TrimSpace(line)
-				if strings.Contains(line, "github.com/evanw/esbuild/internal/") && !strings.Contains(line, "helpers.PrettyPrintedStack") &&
-					!strings.Contains(line, "bundler.parseFile.func") && !strings.Contains(line, "recoverInternalError") && !strings.Contains(line, "/internal/verif") {
-					if i := strings.Index(line, "github.com/evanw/esbuild/internal/"); i >= 0 {
-						line = line[i+len("github.com/evanw/esbuild/internal/"):]
-					}
-					if i := strings.IndexByte(line, '('); i > 0 {
-						line = line[:i]
-					}
-					return line
+				fn := line
+				if i := strings.Index(line, " ("); i > 0 {
+					fn = line[:i]
 				}
+				if !strings.Contains(line, "internal/") || strings.HasPrefix(fn, "helpers.PrettyPrintedStack") || strings.HasPrefix(fn, "bundler.parseFile.func") ||
+					strings.Contains(fn, "recoverInternalError") || strings.HasPrefix(fn, "verif.") || strings.HasPrefix(fn, "runtime.") || strings.HasPrefix(fn, "debug.") {
+					continue
+				}
+				return fn
 			}
 		}
 	}
